@@ -65,6 +65,7 @@ type c17World struct {
 	// non-trivial flags
 	bigCloneOrGrow  bool
 	reuseAfterLink  bool
+	malformed       bool
 	lastReleasedHad bool
 }
 
@@ -288,6 +289,55 @@ func (w *c17World) opParse() {
 	m := &c17Frame{f: f, id: id, want: want, off: off, swLen: swN, msgLen: plN, authLen: auth}
 	w.live = append(w.live, m)
 	w.checkFresh(m, fmt.Sprintf("parse #%d", id), true)
+}
+
+// opParseMalformed hands the builder bytes of a frame whose structure is
+// damaged (as a link reader does with whatever arrives); the parse fails and
+// the caller keeps or recycles its buffer. Nothing of this may touch live frames.
+func (w *c17World) opParseMalformed() {
+	c := w.c
+	var src []byte
+	if len(w.relOrder) > 0 && (len(w.live) == 0 || c.Bool("bad.released")) {
+		src = w.released[w.relOrder[c.Pick("bad.rid", len(w.relOrder))]]
+	} else if len(w.live) > 0 {
+		src = w.live[c.Pick("bad.live", len(w.live))].want
+	} else {
+		return
+	}
+	bad := append([]byte(nil), src...)
+	swN := int(bad[48])
+	how := core.OneOf(c, "bad.how", "message-length-beyond-data", "truncated-in-message", "switch-block-beyond-data", "truncated-header", "version")
+	switch how {
+	case "message-length-beyond-data":
+		binary.BigEndian.PutUint16(bad[49+swN:], uint16(len(bad)))
+	case "truncated-in-message":
+		bad = bad[:min(len(bad), 49+swN+2+c.Int("bad.keep", 0, 16))]
+	case "switch-block-beyond-data":
+		bad[48] = 255
+		bad = bad[:min(len(bad), 49+c.Int("bad.keep", 20, 200))]
+	case "truncated-header":
+		bad = bad[:c.Int("bad.hdr", 1, 48)]
+	default:
+		bad[0] = byte(c.Uniform("bad.version", 2, 255))
+	}
+	off := core.OneOf(c, "bad.off", 2, 12)
+	ps := w.b.GetPooledSlice(off + len(bad) + 16)
+	if ps == nil {
+		return
+	}
+	copy(ps[off:], bad)
+	f, err := w.b.ParseFrame(ps[off:off+len(bad)], ps, off)
+	recycle := c.Bool("bad.recycle")
+	w.log("parseMalformed (%s, %d bytes, offset %d, buffer recycled=%v): err=%v", how, len(bad), off, recycle, err != nil)
+	if err == nil {
+		// Still well-formed for the parser (e.g. the lengths happen to fit): drop it.
+		f.ReturnToPool()
+		return
+	}
+	if recycle {
+		w.b.ReturnPooledSlice(ps)
+	}
+	w.malformed = true
 }
 
 func (w *c17World) pick(label string) *c17Frame {
@@ -526,7 +576,7 @@ func c17Run(c *core.Case, maxOps int) {
 	n := c.Int("ops", 1, maxOps)
 	for i := 0; i < n; i++ {
 		var step string
-		switch c.Weighted("op", 0, 22, 10, 14, 8, 14, 10, 8, 14) {
+		switch c.Weighted("op", 0, 22, 10, 14, 8, 14, 10, 8, 14, 8) {
 		case 1:
 			w.opNew()
 			step = "new"
@@ -548,6 +598,9 @@ func c17Run(c *core.Case, maxOps int) {
 		case 7:
 			w.opSetLink()
 			step = "setRecvLink"
+		case 9:
+			w.opParseMalformed()
+			step = "parseMalformed"
 		default:
 			w.opRelease()
 			step = "release"
@@ -562,6 +615,9 @@ func c17Run(c *core.Case, maxOps int) {
 		kinds[i] = strings.Fields(o)[0]
 	}
 	nt := w.bigCloneOrGrow || w.reuseAfterLink
+	if w.malformed {
+		c.Class("history-with-a-failed-parse")
+	}
 	c.Eval(strings.Join(w.ops, ";"), nt, func() any { return map[string]any{"margins": []int{w.offset, w.overhead}, "ops": w.ops} })
 	if w.bigCloneOrGrow {
 		c.Class("clone-or-growth-above-600-bytes")
